@@ -31,8 +31,14 @@ pub fn main() {
         let _ = env_logger::try_init();
     }
     // panics of the code under test are caught and logged as data; keep stderr readable
+    // (the location of the last panic is remembered and goes into the Panic event of the trace)
     if std::env::var("VERIF_PANIC_TRACE").is_err() {
-        std::panic::set_hook(Box::new(|_| {}));
+        std::panic::set_hook(Box::new(|info| {
+            let loc = info.location().map(|l| format!("{}:{}", l.file(), l.line())).unwrap_or_default();
+            if let Ok(mut g) = client::LAST_PANIC_LOC.lock() {
+                *g = loc;
+            }
+        }));
     }
     let code = drivers::run(&driver, &kv);
     std::process::exit(code);
